@@ -93,6 +93,31 @@ Theorem C20_delete_history_partial : forall (c : cfg) (ops1 ops2 : list op) mint
                  (del_answer mint maxt sel (spec_query (spec_run (map spec_of_op ops1)) qmin qmax qsel)).
 Proof. exact delete_history_partial. Qed.
 
+(* ... and for ARBITRARY later operations (further commits and deletes included; same inherited
+   assumptions): whatever a query of the structured model returns for a selected series inside
+   [mint, maxt] was stored by a Commit after the Delete. *)
+Theorem C20_no_resurrection_history_partial : forall (c : cfg) (ops1 ops2 : list op) mint maxt sel,
+  wf_cfg c -> wf_ops c state0 (ops1 ++ Delete mint maxt sel :: ops2) ->
+  dead_covered (run c (ops1 ++ Delete mint maxt sel :: ops2)) ->
+  forall qmin qmax qsel i pts t vs v,
+    In (i, pts) (query (run c (ops1 ++ Delete mint maxt sel :: ops2)) qmin qmax qsel) ->
+    In i sel -> In (t, vs) pts -> mint <= t <= maxt -> In v vs ->
+    exists l lg f, In (Commit l lg f) ops2 /\ In (i, mkS t v) (map (fun a => (fst (fst a), snd (fst a))) l).
+Proof. exact no_resurrection_history_partial. Qed.
+
+(* The hypothesis dead_covered of the two theorems above cannot be dropped — a FINDING on the code
+   as it is (replayed on the real tsdb.DB, see notes/C20.md): a deleted sample whose chunk
+   straddles the new Head.MinTime is returned again after the head compaction, because Head.gc
+   truncates its tombstone (MemTombstones.TruncateBefore) while the chunk stays and the head
+   querier has no floor at Head.MinTime.  Witness: series 1 = -707, -498, 0 (one chunk, since
+   rangeForTimestamp(-707) = 1000), series 0 = -1000, 503; Delete(-707,-707,{1}); Compact. *)
+Theorem C20_delete_history_refuted :
+  exists (c : cfg) (ops1 ops2 : list op) mint maxt sel,
+    wf_cfg c /\ wf_ops c state0 (ops1 ++ Delete mint maxt sel :: ops2) /\ forallb is_maint ops2 = true /\
+    ~ answer_equiv (query (run c (ops1 ++ Delete mint maxt sel :: ops2)) minInt64 maxInt64 [0; 1])
+                   (del_answer mint maxt sel (spec_query (spec_run (map spec_of_op ops1)) minInt64 maxInt64 [0; 1])).
+Proof. exact delete_history_refuted. Qed.
+
 (* non-vacuity: two series, negative and positive times, an out-of-order sample compacted into its
    own block, a head compaction (blocks [-2000,-1000) and [0,1000)), then Delete(120, 1750) across
    two blocks and the head, tombstone cleaning, another Compact / CompactOOO: all hypotheses hold
